@@ -447,6 +447,40 @@ def section_index(serif, out):
     out.append("")
 
 
+def section_resolve_binary_name(serif, out):
+    """`table._resolve_binary_name` executed on {None, 'a', 'b'}^2 (C18)"""
+    rows = []
+    try:
+        from serif.table import _resolve_binary_name
+        dom = [None, "a", "b"]
+        opt = lambda x: "none" if x is None else "some " + lean_str(x)
+        for l in dom:
+            for r in dom:
+                res = _resolve_binary_name(l, r)
+                name = res[0] if isinstance(res, tuple) else res
+                if name is not None and not isinstance(name, str):
+                    raise TypeError("unexpected result")
+                rows.append(f"({opt(l)}, {opt(r)}, {opt(name)})")
+    finally:
+        out.append("/-- `_resolve_binary_name(left, right)[0]` on {None, 'a', 'b'}^2: (left, right, result name) -/")
+        out.append("def resolveBinaryNameTable : List (Option String × Option String × Option String) := " + lean_list(rows, 3))
+        out.append("")
+
+
+def section_promotable(serif, out):
+    """`vector._PROMOTABLE`: the (current kind, required kind) pairs `__setitem__` promotes through (C03, C08)"""
+    rows = []
+    try:
+        from serif.vector import _PROMOTABLE
+        kc = kind_codes()
+        for a, b in sorted(_PROMOTABLE, key=lambda p: (kc[p[0]], kc[p[1]])):
+            rows.append(f"({kc[a]}, {kc[b]})")
+    finally:
+        out.append("/-- `_PROMOTABLE` as (current kind code, required kind code) -/")
+        out.append("def promotablePairs : List (Nat × Nat) := " + lean_list(rows, 8))
+        out.append("")
+
+
 
 
 def generate():
